@@ -470,3 +470,7 @@ def run(chk):
                  "transposed scene is treated as the transpose", floor=8)
     mirrors.check(r, prog, ["vpsc::Rectangle::", "Avoid::Box::", "topology::LayoutObstacle::"], sample=chk.sample)
     chk.guard(rule_init, chk, prog, prop="C20")
+    from .c15 import rule_array_init
+    chk.guard(rule_array_init, chk, prog)
+    from .c07 import rule_done_reset
+    chk.guard(rule_done_reset, chk, prog)            # a shared convergence test must not carry state from one layout into the next
